@@ -71,7 +71,7 @@ func c04Level(p world.Platform, tee []byte, pattern int, status string) world.Le
 }
 
 func runC04(r *mc.Run) {
-	svn1s := []byte{0, 1, 3, 0x0a}
+	svn1s := []byte{0, 1, 3, 0x0a, 0, 0x83} // the last two quotes carry SVNs >= 0x80 / PCESVN >= 0x8000 (signedness)
 	// one quote per TEE_TCB_SVN[1] value (everything else shared)
 	type qv struct {
 		w   *world.World
@@ -79,12 +79,20 @@ func runC04(r *mc.Run) {
 		raw []byte
 	}
 	var quotes []qv
-	for _, s1 := range svn1s {
+	for qn, s1 := range svn1s {
 		w := world.Honest("T")
 		w.Plat.CPUSVN = [16]byte{5, 5, 2, 2, 3, 1, 1, 3, 1, 1, 1, 1, 1, 1, 1, 4}
+		high := qn >= 4
+		if high {
+			w.Plat.CPUSVN = [16]byte{0x85, 0xfe, 0x80, 0x81, 0x90, 0xa0, 0xb0, 0xc0, 0xd0, 0xe0, 0xf0, 0x88, 0x99, 0xaa, 0xbb, 0x84}
+			w.Plat.PCESVN = 0x8005
+		}
 		w.PKI = w.PKI.WithLeaf(w.Plat)
 		w.Spec.PKI = w.PKI
 		w.Spec.TeeTcbSvn = []byte{4, s1, 5, 1, 1, 1, 1, 1, 1, 1, 1, 1, 1, 1, 1, 2}
+		if high {
+			w.Spec.TeeTcbSvn = []byte{0x84, s1, 0x85, 0x81, 0x91, 0xa1, 0xb1, 0xc1, 0xd1, 0xe1, 0xf1, 0x89, 0x9a, 0xab, 0xbc, 0x82}
+		}
 		w.Spec.MrSeamSigner = world.Fill("mrsignerseam", 48)
 		w.Spec.SeamAttrs = []byte{0x0f, 0, 0, 0, 0, 0, 0, 0x80}
 		w.Parts = w.Spec.Parts()
@@ -173,7 +181,7 @@ func runC04(r *mc.Run) {
 			ti.TdxModule.AttributesMask = "0f00000000000000"
 			ti.TdxModule.Attributes = "0f00000000000080"
 		}
-		return ti, fmt.Sprintf("svn1=%#x", q.tee[1])
+		return ti, fmt.Sprintf("q%d/svn1=%#x", qi, q.tee[1])
 	}
 
 	eval := func(id string, qi int, ti world.TcbInfo, nontrivial bool) {
@@ -242,13 +250,13 @@ func runC04(r *mc.Run) {
 	// full product of the first two levels (pattern x status) x module status class, for svn1 in {0, 3}
 	type prod struct{ qi, l1p, l1s, l2p, l2s, ms int }
 	var prods []prod
-	for _, qi := range []int{0, 2} {
+	for _, qi := range []int{0, 2, 4, 5} {
 		for l1p := range c04Patterns {
 			for l1s := range statuses {
 				for l2p := range c04Patterns {
 					for l2s := range classes {
 						for _, ms := range []int{0, 4} {
-							if qi == 0 && ms != 0 {
+							if (qi == 0 || qi == 4) && ms != 0 {
 								continue
 							}
 							prods = append(prods, prod{qi, l1p, l1s, l2p, l2s, ms})
@@ -260,7 +268,7 @@ func runC04(r *mc.Run) {
 	}
 	done := r.Parallel(len(prods), func(i int) {
 		p := prods[i]
-		id := fmt.Sprintf("product/svn1=%#x/l1=%s:%s,l2=%s:%s,module=%s", svn1s[p.qi], c04Patterns[p.l1p], statuses[p.l1s], c04Patterns[p.l2p], classes[p.l2s], statuses[p.ms])
+		id := fmt.Sprintf("product/q%d/svn1=%#x/l1=%s:%s,l2=%s:%s,module=%s", p.qi, svn1s[p.qi], c04Patterns[p.l1p], statuses[p.l1s], c04Patterns[p.l2p], classes[p.l2s], statuses[p.ms])
 		if !r.Want(id) {
 			return
 		}
